@@ -82,6 +82,8 @@ inductive Step
   | sig (i : Nat)     -- signaller i does its next action
   | handler (k : Nat) -- the results handler moves a queued failure into the cache (queues fed by several processes keep no order)
   | store (k : Nat)   -- one of the pending stores is carried out
+  | drop (k : Nat)    -- … or has no effect, because another store under the same job id got in first (jobs that keep their first
+                      -- outcome; two `_set` calls racing on the reusable MAIN / INIT entries)
   | main              -- the caller does its next action
   deriving Repr, DecidableEq
 
@@ -110,6 +112,12 @@ def step (s : St) : Step → Option St
     match s.pend[k]? with
     | none => none
     | some e => some { s with pend := s.pend.eraseIdx k, cache := e :: s.cache }
+  | .drop k =>
+    match s.pend[k]? with
+    | none => none
+    | some e =>
+      let rest := s.pend.eraseIdx k
+      if (lookup s e.1).isSome || rest.any (·.1 == e.1) then some { s with pend := rest } else none
   | .main =>
     match s.main with
     | .waiting => if s.flag then some { s with main := .saw } else none
